@@ -62,5 +62,101 @@ for sc in SCN.SCENARIOS[:nmax]:
         for k in STAT:
             if not np.array_equal(before[k], getattr(s, k), equal_nan=True):
                 bad.append(dict(where=tag, what='toggle did not restore ' + k))
-print(json.dumps(dict(violations=bad[:10])))
+# ---- histories around the end of exploration
+from nautilus import Sampler  # noqa: E402
+import signal  # noqa: E402
+
+
+class Budget(Exception):
+    pass
+
+
+def _alarm(signum, frame):
+    raise Budget()
+
+
+signal.signal(signal.SIGALRM, _alarm)
+undecided = []
+
+
+def view_consistent(s, tag):
+    """the per-shell counts describe the view selected by the flag"""
+    if len(s.shell_end_exp) != len(s.points) or len(
+            s.shell_n_sample_exp) != len(s.points):
+        bad.append(dict(where=tag, what='exploration snapshot has {} entries '
+                        'for {} shells'.format(len(s.shell_end_exp),
+                                               len(s.points))))
+        return
+    for i, p in enumerate(s.points):
+        start = int(s.shell_end_exp[i]) if s.discard_exploration else 0
+        if start > len(p):
+            bad.append(dict(where=tag, shell=i, what='exploration end {} '
+                            'beyond the {} stored points'.format(start,
+                                                                 len(p))))
+        elif int(s.shell_n[i]) != len(p) - start:
+            bad.append(dict(where=tag, shell=i, what='shell_n {} but the view '
+                            'holds {} points (discard={})'.format(
+                                int(s.shell_n[i]), len(p) - start,
+                                s.discard_exploration)))
+
+
+def _like(x):
+    return -0.5 * float(np.sum(((x - 0.5) / 0.1)**2))
+
+
+for seed in (0, 1, 2):
+    # tiny live set: empty shells are removed when exploration ends
+    kw = dict(n_dim=2, n_live=10, n_batch=1, n_update=1, n_networks=0,
+              seed=seed)
+    s = Sampler(SCN.prior, _like, **kw)
+    tag0 = 'tiny live set, discard in run(), seed {}'.format(seed)
+
+    class Stop(Exception):
+        pass
+
+    def watch(smp, w, tag0=tag0):
+        # first batch boundary after the end of exploration
+        if smp.explored:
+            n0 = len(bad)
+            view_consistent(smp, tag0 + ', first batch after exploration')
+            if len(bad) > n0:
+                raise Stop()
+    try:
+        signal.alarm(240)
+        SCN.run_with_hooks(s, watch, f_live=1e-3, n_eff=30,
+                           discard_exploration=True, verbose=False)
+        signal.alarm(0)
+    except Stop:
+        signal.alarm(0)
+        continue
+    except Budget:
+        undecided.append(tag0)
+        continue
+    view_consistent(s, tag0)
+    s.discard_exploration = False
+    view_consistent(s, 'tiny live set, discard switched off, seed {}'.format(
+        seed))
+    s.discard_exploration = True
+    view_consistent(s, 'tiny live set, discard switched on again, seed {}'
+                    .format(seed))
+    # flag set while still exploring, then asserted again by run()
+    s = Sampler(SCN.prior, _like, n_dim=2, n_live=100, n_networks=0, seed=seed)
+    try:
+        signal.alarm(240)
+        s.run(n_like_max=300, verbose=False)
+        s.discard_exploration = True
+        s.run(n_eff=200, discard_exploration=True, verbose=False)
+        signal.alarm(0)
+    except Budget:
+        undecided.append('flag set during exploration, seed {}'.format(seed))
+        continue
+    view_consistent(s, 'flag set during exploration, seed {}'.format(seed))
+    a = {k: np.copy(getattr(s, k)) for k in STAT}
+    s.discard_exploration = False
+    s.discard_exploration = True
+    for k in STAT:
+        if not np.array_equal(a[k], getattr(s, k), equal_nan=True):
+            bad.append(dict(where='flag set during exploration, seed {}'
+                            .format(seed), what='off/on toggle changed ' + k))
+print(json.dumps(dict(violations=bad[:10], undecided=undecided)))
 sys.exit(1 if bad else 0)
